@@ -19,6 +19,9 @@ import (
 	"github.com/openGemini/openGemini/lib/util/lifted/protobuf/proto"
 )
 
+// DataT is the catalogue type.
+type DataT = meta.Data
+
 // Cmd is one log entry: a marshalled proto.Command plus a readable description.
 type Cmd struct {
 	Type    int32  `json:"type"`
@@ -119,7 +122,16 @@ type Gen struct {
 	Extreme bool
 	// Replication allows ReplicaN>1 databases (only meaningful under ha-policy=replication).
 	Replication bool
-	ltime       uint64
+	// TmpIndex allows UpdateNodeTmpIndexCommand (the per-node applied-index watermark of
+	// the incremental catalogue sync). Drivers switch it on for a fraction of the logs only:
+	// the watermark is not part of the snapshot (known finding), and a log stops at its first
+	// divergence.
+	TmpIndex bool
+	// FlipShardType lets CreateMeasurement ask for the sharding type the policy does not
+	// use (normally refused; accepted when an equally named measurement awaits deletion,
+	// which is a known source of map-order dependent divergence).
+	FlipShardType bool
+	ltime         uint64
 }
 
 var (
@@ -388,7 +400,9 @@ func (g *Gen) CreateDatabase() Cmd {
 		v.ReplicaNum = proto.Uint32(1)
 	}
 	if g.Replication {
-		if pv := g.D().ReplicaGroups[db]; len(pv) > 0 || g.p(0.3) {
+		// a replicated database is created only after its partition view and replica
+		// groups (CreateDbPtViewCommand with the same replica number), as the handler does
+		if pv := g.D().ReplicaGroups[db]; len(pv) > 0 {
 			v.ReplicaNum = proto.Uint32(3)
 			if v.RetentionPolicy != nil {
 				v.RetentionPolicy.ReplicaN = proto.Uint32(3)
@@ -396,7 +410,8 @@ func (g *Gen) CreateDatabase() Cmd {
 		}
 	}
 	if g.p(0.2) {
-		v.Ski = g.ski("hash")
+		// the client attaches a database shard key only when it names at least one column
+		v.Ski = &mproto.ShardKeyInfo{Type: proto.String("hash"), ShardKey: [][]string{{"t0"}, {"t0", "t1"}}[g.n(2)]}
 	}
 	if g.p(0.2) {
 		v.EnableTagArray = proto.Bool(true)
@@ -494,9 +509,7 @@ func (g *Gen) UpdateRetentionPolicy() Cmd {
 	if g.p(0.05) {
 		v.ReplicaN = proto.Uint32(1)
 	}
-	if g.p(0.15) {
-		v.MakeDefault = proto.Bool(true)
-	}
+	v.MakeDefault = proto.Bool(g.p(0.15))
 	return mk(mproto.Command_UpdateRetentionPolicyCommand, mproto.E_UpdateRetentionPolicyCommand_Command, v, "")
 }
 
@@ -518,7 +531,7 @@ func (g *Gen) CreateMeasurement() Cmd {
 			typ = "range"
 		}
 	}
-	if g.p(0.07) {
+	if g.FlipShardType && g.p(0.15) {
 		if typ == "hash" {
 			typ = "range"
 		} else {
@@ -792,7 +805,7 @@ func (g *Gen) UpdateShardDownSampleInfo() Cmd {
 		}
 	}
 	v := &mproto.UpdateShardDownSampleInfoCommand{Ident: &mproto.ShardIdentifier{ShardID: proto.Uint64(id), ShardGroupID: proto.Uint64(gid), OwnerDb: proto.String(db), OwnerPt: proto.Uint32(0),
-		Policy: proto.String(rp), DownSampleLevel: proto.Int64(int64(g.n(3))), DownSampleID: proto.Uint64(uint64(g.n(2))), ReadOnly: proto.Bool(g.p(0.5))}}
+		Policy: proto.String(rp), ShardType: proto.String("hash"), DownSampleLevel: proto.Int64(int64(g.n(3))), DownSampleID: proto.Uint64(uint64(g.n(2))), ReadOnly: proto.Bool(g.p(0.5))}}
 	return mk(mproto.Command_UpdateShardDownSampleInfoCommand, mproto.E_UpdateShardDownSampleInfoCommand_Command, v, "")
 }
 
@@ -973,6 +986,13 @@ func (g *Gen) UpdateMetaNodeStatus() Cmd {
 	v := &mproto.UpdateMetaNodeStatusCommand{ID: proto.Uint64(g.pickNodeID(ids)), Status: proto.Int32(g.status()), Ltime: proto.Uint64(g.nextLTime()), GossipAddr: proto.String("8012")}
 	return mk(mproto.Command_UpdateMetaNodeStatusCommand, mproto.E_UpdateMetaNodeStatusCommand_Command, v, "")
 }
+func (g *Gen) updateNodeTmpIndexOpt() (Cmd, bool) {
+	if !g.TmpIndex {
+		return Cmd{}, false
+	}
+	return g.UpdateNodeTmpIndex(), true
+}
+
 func (g *Gen) UpdateNodeTmpIndex() Cmd {
 	role := int32(g.n(3)) // SQL, STORE, META(invalid)
 	var ids []uint64
@@ -1290,7 +1310,7 @@ var table = []entry{
 	{mproto.Command_CreateSqlNodeCommand, 2, false, wrap((*Gen).CreateSqlNode)},
 	{mproto.Command_UpdateSqlNodeStatusCommand, 1, false, wrap((*Gen).UpdateSqlNodeStatus)},
 	{mproto.Command_UpdateMetaNodeStatusCommand, 1, false, wrap((*Gen).UpdateMetaNodeStatus)},
-	{mproto.Command_UpdateNodeTmpIndexCommand, 1, false, wrap((*Gen).UpdateNodeTmpIndex)},
+	{mproto.Command_UpdateNodeTmpIndexCommand, 2, false, (*Gen).updateNodeTmpIndexOpt},
 	{mproto.Command_VerifyDataNodeCommand, 1, false, wrap((*Gen).VerifyDataNode)},
 	{mproto.Command_CreateEventCommand, 2, false, wrap((*Gen).CreateEvent)},
 	{mproto.Command_UpdateEventCommand, 2, false, wrap((*Gen).UpdateEvent)},
